@@ -2,6 +2,7 @@
 import itertools
 import numpy as np
 
+MIRRORS = [('enspara/msm/transition_matrices.py', ['assigns_to_counts', '_transitions_helper'])]
 RULE = ('random sets of integer state trajectories (lengths 1..14 incl. shorter than the lag, '
         'lag 1..7, sliding on/off, explicit/inferred state count; ragged, -1-padded rectangular and '
         'row-permuted forms) + exhaustive slice.indices scope; a case is non-trivial when at least '
